@@ -22,7 +22,10 @@ def _is_container_display(v: ast.AST) -> bool:
 
 
 class Resolver:
-    def __init__(self, fn: ast.AST) -> None:
+    def __init__(self, fn: ast.AST, unpack_calls: bool = False) -> None:
+        # unpack_calls: `a, b = f(..)` also makes a = f(..)[0], b = f(..)[1] (off by default: rules that follow values INTO tuple-returning
+        # helpers need the names)
+        self.unpack_calls = unpack_calls
         counts: Dict[str, int] = {}
         self.defs: Dict[str, ast.AST] = {}
         self.paths: Dict[int, Path] = {}          # node id -> path of the enclosing statement
@@ -89,7 +92,20 @@ class Resolver:
             t = n.targets[0]
             if isinstance(n.value, (ast.Tuple, ast.List)) and len(n.value.elts) == len(t.elts):
                 pairs += [(x.id, v) for x, v in zip(t.elts, n.value.elts) if isinstance(x, ast.Name)]
-            elif isinstance(n.value, (ast.Subscript, ast.Attribute, ast.Name)):
+            elif isinstance(n.value, (ast.Subscript, ast.Attribute, ast.Name, ast.Call)) and any(isinstance(x, ast.Starred) for x in t.elts):
+                # first, *rest = X : first is X[0], rest is X[1:]  (one starred target, no targets after it)
+                k = [i for i, x in enumerate(t.elts) if isinstance(x, ast.Starred)]
+                if len(k) == 1 and k[0] == len(t.elts) - 1 and isinstance(t.elts[-1].value, ast.Name):
+                    for i, x in enumerate(t.elts[:-1]):
+                        if isinstance(x, ast.Name):
+                            sub = ast.copy_location(ast.Subscript(value=n.value, slice=ast.Constant(value=i), ctx=ast.Load()), n.value)
+                            self.paths[id(sub)] = path
+                            pairs.append((x.id, sub))
+                    sl = ast.copy_location(ast.Subscript(value=n.value, slice=ast.Slice(lower=ast.Constant(value=k[0]), upper=None, step=None),
+                                                         ctx=ast.Load()), n.value)
+                    self.paths[id(sl)] = path
+                    pairs.append((t.elts[-1].value.id, sl))
+            elif isinstance(n.value, (ast.Subscript, ast.Attribute, ast.Name)) or (isinstance(n.value, ast.Call) and self.unpack_calls):
                 # a, b = X  (X a stored pair): a is X[0], b is X[1]
                 for i, x in enumerate(t.elts):
                     if isinstance(x, ast.Name):
@@ -139,6 +155,13 @@ class Resolver:
                 setattr(new, field, [self._subst(v, keep, depth, at) if isinstance(v, ast.AST) else v for v in value])
             elif isinstance(value, ast.AST):
                 setattr(new, field, self._subst(value, keep, depth, at))
+        # X[k:][i] is X[k + i]
+        if isinstance(new, ast.Subscript) and isinstance(new.slice, ast.Constant) and isinstance(new.slice.value, int) and new.slice.value >= 0 \
+                and isinstance(new.value, ast.Subscript) and isinstance(new.value.slice, ast.Slice) and new.value.slice.upper is None \
+                and new.value.slice.step is None and isinstance(new.value.slice.lower, ast.Constant) and isinstance(new.value.slice.lower.value, int) \
+                and new.value.slice.lower.value >= 0:
+            return ast.copy_location(ast.Subscript(value=new.value.value, slice=ast.Constant(value=new.value.slice.lower.value + new.slice.value),
+                                                   ctx=ast.Load()), new)
         return new
 
     def text(self, e: ast.AST, keep: Tuple[str, ...] = ()) -> str:
